@@ -19,8 +19,8 @@
    [carries spi q o]: the end-to-end extension of q was decoded directly in
    front of the L4 layer and its first authenticator option o has 28 bytes of
    data, SPI spi and the algorithm of the time service. *)
-From ST Require Import Base.Ints Model.ScionGlue Model.ScionGlueOracle Proofs.ScionGlueProofs.
-From Coq Require Import ZArith List Bool.
+From ST Require Import Base.Ints Model.ScionGlue Model.ScionGlueOracle Model.DrkeyCache Proofs.ScionGlueProofs Proofs.DrkeyCacheProofs.
+From Coq Require Import ZArith List Bool Lia.
 Import ListNotations.
 Open Scope Z_scope.
 
@@ -134,6 +134,28 @@ Theorem C13_forward_payload_unchanged : forall q oob,
 Proof. exact (forward_payload_unchanged (fun _ _ => []) (fun p => Some p) (fun b => b)). Qed.
 Print Assumptions C13_forward_payload_unchanged.
 
+(* What exactly is forwarded: the SCION header with every field but NextHdr, the L4
+   header and payload (theorem above), and these extension headers: if the
+   end-to-end extension directly follows the SCION header, all its options
+   (authenticator included) in their order, followed by the receive-timestamp
+   option when the kernel delivered one; otherwise - the packet has a
+   hop-by-hop extension - NO option of the original packet: the hop-by-hop
+   extension and an end-to-end extension behind it are dropped, only the
+   timestamp option (if any) is sent, and NextHdr names what is sent.  A packet
+   with a hop-by-hop extension therefore loses its authenticator on the way
+   through the end-host port (observation, see DESIGN). *)
+Theorem C13_forward_extensions : forall q oob,
+  let ts := mkOpt OPT_TIMESTAMP oob in
+  let t := forward_tx q oob in
+  (h_next (rx_hdr q) = E2E_CLASS ->
+     h_next (tx_hdr t) = E2E_CLASS /\
+     tx_e2e t = Some (rx_opts q ++ (if zlen oob =? 0 then [] else [ts]))) /\
+  (h_next (rx_hdr q) <> E2E_CLASS ->
+     (zlen oob = 0 -> tx_e2e t = None /\ h_next (tx_hdr t) = h_next (rx_hdr q)) /\
+     (zlen oob <> 0 -> tx_e2e t = Some [ts] /\ h_next (tx_hdr t) = E2E_CLASS)).
+Proof. exact forward_extensions. Qed.
+Print Assumptions C13_forward_extensions.
+
 (* Ideal MAC (no two MAC inputs share a tag under one key): a request / response
    carrying a tag made for the MAC input m0 that arrives with any covered field
    changed (authenticator algorithm or timestamp/sequence number, traffic
@@ -235,6 +257,32 @@ Theorem C13_srv_nokey_oracle_holds_on_model : forall mac reverse fetch_key ntp_h
 Proof. exact srv_nokey_oracle_on_model. Qed.
 Print Assumptions C13_srv_nokey_oracle_holds_on_model.
 
+(* "The host-to-host key": the listener's decision depends on the key source only
+   through the key for keyreq_of q = (server: the packet's destination ISD-AS and
+   host; client: its source ISD-AS and host).  (On the real code the requests
+   the listener and the client make to the DRKey daemon are compared with this,
+   protocol number and validity time included: kinds srv.keyed / cli.keyed.) *)
+Theorem C13_key_is_the_packets : forall mac reverse ntp_handle fk1 fk2 c q oob,
+  fk1 (keyreq_of q) = fk2 (keyreq_of q) ->
+  server_step mac reverse fk1 ntp_handle c q oob = server_step mac reverse fk2 ntp_handle c q oob.
+Proof. exact server_step_key_ext. Qed.
+Print Assumptions C13_key_is_the_packets.
+
+(* The key cache of the listener (Fetcher.FetchHostASKey, Model/DrkeyCache.v): K is
+   the key hierarchy (key bytes as a function of protocol, server AS, client AS,
+   server host and epoch start).  Against daemons that answer - when they answer -
+   with the genuine key of the request for an epoch containing the validity time
+   asked for, every key the Fetcher returns, in any history of calls (any
+   interleaving of clients, hosts, times going forth and back, cache hits,
+   daemon failures), is the genuine key of that call's protocol, ASes and
+   server host for an epoch that CONTAINS the call's validity time: a key is
+   never used outside its epoch, nor for another host. *)
+Theorem C13_key_cache_sound : forall K calls,
+  Forall (fun cd => sound_daemon K (snd cd)) calls ->
+  Forall2 (fun cd r => forall k, snd r = Some k -> key_for K k (fst cd)) calls (krun [] calls).
+Proof. intros K calls H. exact (krun_sound K calls [] (empty_cache_genuine K) H). Qed.
+Print Assumptions C13_key_cache_sound.
+
 (* ---- the hypotheses are satisfiable: a concrete authenticated exchange ---- *)
 (* a 16-byte checksum of the encoded MAC input: enough for the example *)
 Definition ex_mac (k : bytes) (m : macin) : bytes := (fold_left Z.add (ideal_mac k m) 0 mod 256) :: repeat 0 15.
@@ -334,3 +382,53 @@ Theorem C13_fail_closed_refuted_on_model :
    C13_cli_strict_ok true false true [(ex_plain_reply, [])] (Some 0%nat) = false).
 Proof. repeat split; vm_compute; reflexivity. Qed.
 Print Assumptions C13_fail_closed_refuted_on_model.
+
+(* ---- SCMP requests are answered whatever authenticator they carry (the first
+        sentence of C13 read literally says "a request ... is never served";
+        kind srv.scmpauth shows the same on the real listener; KNOWN_FINDINGS) ----
+   An echo request carrying the time service's authenticator with a MAC that
+   is not the MAC of the packet is answered by the model of the listener, and
+   the literal oracle C13_srv_scmpauth_ok rejects that observation; in fact the
+   SCMP branch of the model does not depend on the options at all. *)
+Definition ex_scmp_req : rx :=
+  mkRx true [LT_SCION; LT_E2E; LT_SCMP] ex_hdr [mkOpt OPT_AUTH (meta_bytes spi_client auth_algorithm ++ repeat 7 16)]
+       (Scmp SCMP_ECHO_REQUEST 0 [0;1;0;2;9;9;9;9]) 120 false.
+
+Theorem C13_scmp_bad_mac_served_refuted :
+  (exists o, carries_auth spi_client ex_scmp_req = Some o /\
+             opt_mac o <> recomputed_mac ex_mac (repeat 0 16) ex_scmp_req) /\
+  map so_sock (ex_obs ex_scfg ex_scmp_req) = [7] /\
+  C13_srv_scmpauth_ok true ex_scmp_req (recomputed_mac ex_mac (repeat 0 16) ex_scmp_req) (ex_obs ex_scfg ex_scmp_req) = false /\
+  (* the property oracle as built (clause 1 speaks of requests for the service) accepts it *)
+  ex_srv_ok ex_scfg ex_scmp_req (ex_obs ex_scfg ex_scmp_req) = true /\
+  (* the SCMP branch never looks at the options *)
+  (forall mac reverse fetch_key ntp_handle c ok ls h os os' t code p n nok oob,
+     server_step mac reverse fetch_key ntp_handle c (mkRx ok ls h os (Scmp t code p) n nok) oob =
+     server_step mac reverse fetch_key ntp_handle c (mkRx ok ls h os' (Scmp t code p) n nok) oob).
+Proof.
+  split; [eexists; split; [vm_compute; reflexivity|vm_compute; discriminate]|].
+  split; [vm_compute; reflexivity|].
+  split; [vm_compute; reflexivity|].
+  split; [vm_compute; reflexivity|].
+  intros. reflexivity.
+Qed.
+Print Assumptions C13_scmp_bad_mac_served_refuted.
+
+(* the cache theorem is not vacuous: two epochs, one client AS; the key of the first
+   epoch is served from the cache inside the epoch and replaced after it *)
+Definition ex_K (p s d : Z) (h : bytes) (nb : Z) : bytes := [p; s; d; zlen h; nb].
+Definition ex_daemon (m : hameta) : option hakey :=
+  let nb := (m_time m / 100) * 100 in
+  Some (mkHak (m_proto m) (m_src_ia m) (m_dst_ia m) (m_src_host m) nb (nb + 100) (ex_K (m_proto m) (m_src_ia m) (m_dst_ia m) (m_src_host m) nb)).
+Example C13_key_cache_nonvacuous :
+  sound_daemon ex_K ex_daemon /\
+  map (fun r => (fst r, match snd r with Some k => k_nb k | None => -1 end))
+      (krun [] [(mkMeta 123 1 2 [10;0;0;1] 150, ex_daemon); (mkMeta 123 1 2 [10;0;0;1] 199, ex_daemon);
+                (mkMeta 123 1 2 [10;0;0;1] 201, ex_daemon); (mkMeta 123 1 2 [10;0;0;9] 202, ex_daemon);
+                (mkMeta 123 1 2 [10;0;0;9] 150, fun _ => None)])
+  = [(true, 100); (false, 100); (true, 200); (true, 200); (true, -1)].
+Proof.
+  split; [|vm_compute; reflexivity].
+  intros m k H. unfold ex_daemon in H. inversion H; subst; clear H. unfold key_for, genuine. cbn.
+  repeat split; try reflexivity; pose proof (Z.div_mod (m_time m) 100 ltac:(lia)); pose proof (Z.mod_pos_bound (m_time m) 100 ltac:(lia)); lia.
+Qed.
